@@ -214,6 +214,55 @@ STATELESS = frozenset(["inc", "Call(inc)", "Variable", "Filter(even)", "RunIf", 
                        "Split([])"])
 
 
+def check_shared(res, specs, flowspec, ref):
+    """One Sequence object in two places, and two flows of one Sequence object read in turn (stateless
+    elements, immutable values): the object stands for the composition of its elements wherever and
+    however often it is used."""
+    kind, m = flowspec
+    res.count("shared_object_checked")
+    # (1) s twice in one pipeline == the element list twice
+    twice = cm.outcome(lambda: fold(list(specs) + list(specs), cm.make_flow(kind, m)))
+    for top in ("sequence", "source"):
+        case = {"law": "shared", "els": list(specs), "flow": [kind, m], "top": top}
+        try:
+            s = lena.core.Sequence(*[cm.build(sp) for sp in specs])
+            flow = cm.make_flow(kind, m)
+            if top == "sequence":
+                pipe = lena.core.Sequence(s, s)
+                got = cm.outcome(lambda: pipe.run(flow))
+            else:
+                pipe = lena.core.Source(flow, s, s)
+                got = cm.outcome(lambda: pipe())
+        except Exception as e:
+            got = ("exc", type(e).__name__ + " (at construction)", None)
+        if not cm.same(got, twice):
+            res.violation(case, cm.show(got), cm.show(twice),
+                          {"law": "shared-object", "form": top, "diff": cm.diff_kind(got, twice)},
+                          note="the same Sequence object used twice in one pipeline")
+    # (2) two flows of one object, read alternately
+    case = {"law": "interleaved", "els": list(specs), "flow": [kind, m]}
+    flow2 = [v + 100 for v in cm.make_flow(kind, m)]
+    ref2 = cm.outcome(lambda: fold(specs, flow2))
+    try:
+        s = lena.core.Sequence(*[cm.build(sp) for sp in specs])
+        g1, g2 = s.run(cm.make_flow(kind, m)), s.run(list(flow2))
+        o1, o2 = [], []
+        live = [(g1, o1), (g2, o2)]
+        while live:
+            for pair in list(live):
+                try:
+                    pair[1].append(next(pair[0]))
+                except StopIteration:
+                    live.remove(pair)
+        got = (("ok", cm.canon(o1), o1), ("ok", cm.canon(o2), o2))
+    except Exception as e:
+        got = (("exc", type(e).__name__, None),) * 2
+    if not (cm.same(got[0], ref) and cm.same(got[1], ref2)):
+        res.violation(case, [cm.show(got[0]), cm.show(got[1])], [cm.show(ref), cm.show(ref2)],
+                      {"law": "interleaved-runs", "diff": cm.diff_kind(got[0], ref)},
+                      note="two flows of one Sequence object read alternately")
+
+
 def check_compose(res, specs, flowspec, form_list=None):
     """Run every form of the list *specs* over the flow and judge it. Returns the last case."""
     kind, m = flowspec
@@ -260,6 +309,9 @@ def check_compose(res, specs, flowspec, form_list=None):
                 res.violation(dict(case, law="rerun"), cm.show(again), cm.show(got),
                               {"law": "rerun", "form": form["top"], "diff": cm.diff_kind(again, got)},
                               note="second run of the same pipeline object (stateless elements, bare flow)")
+        if (form is flat_form and kind == "bare" and ref[0] == "ok" and n >= 1
+                and all(sp in STATELESS for sp in specs)):
+            check_shared(res, specs, flowspec, ref)
         if only_empty and got[0] == "ok" and cm.same(got, expected):
             # an empty Sequence is the identity: the very same objects come out
             res.count("identity_checked")
@@ -455,6 +507,11 @@ def replay(case):
     warnings.simplefilter("ignore")
     res = Result()
     law = case.get("law")
+    if law in ("shared", "interleaved"):
+        specs, flowspec = tuple(case["els"]), tuple(case["flow"])
+        ref = cm.outcome(lambda: fold(specs, cm.make_flow(*flowspec)))
+        check_shared(res, specs, flowspec, ref)
+        return [v for v in result_violations(res) if v["case"].get("law") == law]
     if law in ("compose", "identity", "rerun"):
         form = case["form"]
         # re-judge this form only (the flat form is always executed as the yardstick)
